@@ -161,6 +161,13 @@ fn gen(rng: &mut Rng, _idx: u64, tier: Tier) -> Case {
         let n_conn = rng.range(1, 3) as usize;
         let per = (ops.len() / n_conn).max(1);
         let mut conns = vec![];
+        if rng.chance(0.1) {
+            // a first session that delivers nothing usable at all
+            let mut j = vec![];
+            for _ in 0..rng.range(1, 4) { let k = *rng.pick(gen::JUNK_KINDS); j.push(Op::Data { dt_us: 0, bytes: Bytes(gen::junk(rng, k)), tag: format!("junk:junk-{}", k) }); }
+            j.push(Op::Eof { dt_us: 0 });
+            conns.push(Conn::Accept { ops: j });
+        }
         let mut it = ops.into_iter().peekable();
         for c in 0..n_conn {
             let mut part: Vec<Op> = vec![];
